@@ -115,11 +115,11 @@ theorem sim_of_map_eq {α β} {R : α → β → Prop} (abs : α → β) {x : Ou
   | panic w => trivial
   | diverge => trivial
 
-theorem binaryOf_sim (a : Nat) (ha : AddrSize a) (op : BinOp) (hop : ¬ IsShift op) (x y : Value)
+theorem binaryOf_sim (a : Nat) (ha : AddrSize a) (op : BinOp) (x y : Value)
     (hx : VOk x) (hy : VOk y) :
     Sim (fun r sr => sr = absV a r ∧ VOk r) (binaryOf op x y (maskOf a)) (binary a op (absV a x) (absV a y)) :=
-  sim_of_map_eq (absV a) (binary_refines a ha op x y hx.2 hy.1 (fun h => absurd h hop))
-    (fun r hr => ⟨rfl, binaryOf_vok op hop x y r _ hx hy hr⟩)
+  sim_of_map_eq (absV a) (binary_refines a ha op x y hx.2 hy.1)
+    (fun r hr => ⟨rfl, binaryOf_vok op x y r _ hx hy hr⟩)
 
 theorem unaryOf_sim (a : Nat) (ha : AddrSize a) (op : UnOp) (x : Value) (hx : VOk x) :
     Sim (fun r sr => sr = absV a r ∧ VOk r) (unaryOf op x (maskOf a)) (unary a op (absV a x)) :=
@@ -151,7 +151,7 @@ def EffRel (a : Nat) (p : OpResult × Mach) (e : Effect) : Prop :=
   | .waiting w r, .request w' r' s => w' = w ∧ r' = r ∧ R a p.2 s
   | _, _ => False
 
-theorem binop_sim (a : Nat) (c : Config) (sc : SCfg) (hc : CfgRel a c sc) (op : BinOp) (hop : ¬ IsShift op)
+theorem binop_sim (a : Nat) (c : Config) (sc : SCfg) (hc : CfgRel a c sc) (op : BinOp)
     (m : Mach) (s : SState) (h : R a m s) :
     Sim (EffRel a) (Eval.binop c (binaryOf op) m) (Machine.binop sc op s) := by
   unfold Eval.binop Machine.binop
@@ -161,7 +161,7 @@ theorem binop_sim (a : Nat) (c : Config) (sc : SCfg) (hc : CfgRel a c sc) (op : 
   subst e1 e2
   have hasz : sc.a = a := by show sc.enc.addressSize = a; rw [hc.enc, hc.asz]
   rw [hc.mask, hasz]
-  refine Sim.bind (binaryOf_sim a hc.addr op hop lhs rhs v2 v1) (fun r sr ⟨e3, v3⟩ => ?_)
+  refine Sim.bind (binaryOf_sim a hc.addr op lhs rhs v2 v1) (fun r sr ⟨e3, v3⟩ => ?_)
   subst e3
   obtain ⟨m3, hp, r3⟩ := push_sim a c hc.caps r v3 m2 s2 r2
   rw [hp]
@@ -304,23 +304,23 @@ theorem exec_sim (a : Nat) (c : Config) (sc : SCfg) (hc : CfgRel a c sc) (op : O
   case abs => exact unop_sim a c sc hc .abs m s h
   case neg => exact unop_sim a c sc hc .neg m s h
   case not => exact unop_sim a c sc hc .not m s h
-  case and => exact binop_sim a c sc hc .and (by simp [IsShift]) m s h
-  case div => exact binop_sim a c sc hc .div (by simp [IsShift]) m s h
-  case minus => exact binop_sim a c sc hc .sub (by simp [IsShift]) m s h
-  case mod => exact binop_sim a c sc hc .rem (by simp [IsShift]) m s h
-  case mul => exact binop_sim a c sc hc .mul (by simp [IsShift]) m s h
-  case or => exact binop_sim a c sc hc .or (by simp [IsShift]) m s h
-  case plus => exact binop_sim a c sc hc .add (by simp [IsShift]) m s h
-  case xor => exact binop_sim a c sc hc .xor (by simp [IsShift]) m s h
-  case eq => exact binop_sim a c sc hc .eq (by simp [IsShift]) m s h
-  case ge => exact binop_sim a c sc hc .ge (by simp [IsShift]) m s h
-  case gt => exact binop_sim a c sc hc .gt (by simp [IsShift]) m s h
-  case le => exact binop_sim a c sc hc .le (by simp [IsShift]) m s h
-  case lt => exact binop_sim a c sc hc .lt (by simp [IsShift]) m s h
-  case ne => exact binop_sim a c sc hc .ne (by simp [IsShift]) m s h
-  case shl => exact Sim.unspec _
-  case shr => exact Sim.unspec _
-  case shra => exact Sim.unspec _
+  case and => exact binop_sim a c sc hc .and m s h
+  case div => exact binop_sim a c sc hc .div m s h
+  case minus => exact binop_sim a c sc hc .sub m s h
+  case mod => exact binop_sim a c sc hc .rem m s h
+  case mul => exact binop_sim a c sc hc .mul m s h
+  case or => exact binop_sim a c sc hc .or m s h
+  case plus => exact binop_sim a c sc hc .add m s h
+  case xor => exact binop_sim a c sc hc .xor m s h
+  case eq => exact binop_sim a c sc hc .eq m s h
+  case ge => exact binop_sim a c sc hc .ge m s h
+  case gt => exact binop_sim a c sc hc .gt m s h
+  case le => exact binop_sim a c sc hc .le m s h
+  case lt => exact binop_sim a c sc hc .lt m s h
+  case ne => exact binop_sim a c sc hc .ne m s h
+  case shl => exact binop_sim a c sc hc .shl m s h
+  case shr => exact binop_sim a c sc hc .shr m s h
+  case shra => exact binop_sim a c sc hc .shra m s h
   case typedLiteral bt v => exact ⟨rfl, rfl, h⟩
   case convert bt => exact ⟨rfl, rfl, h⟩
   case reinterpret bt => exact ⟨rfl, rfl, h⟩
@@ -430,7 +430,7 @@ theorem exec_sim (a : Nat) (c : Config) (sc : SCfg) (hc : CfgRel a c sc) (op : O
     rw [hc.mask, hsa]
     have hty : (absV a lhs).ty = lhs.ty := rfl
     rw [hty, ← habs]
-    refine Sim.bind (binaryOf_sim a hc.addr .add (by simp [IsShift]) lhs rhs v1 hvr) (fun r sr ⟨e3, v3⟩ => ?_)
+    refine Sim.bind (binaryOf_sim a hc.addr .add lhs rhs v1 hvr) (fun r sr ⟨e3, v3⟩ => ?_)
     subst e3
     obtain ⟨m3, hp, r3⟩ := push_sim a c hc.caps r v3 m1 s1 r1
     rw [hp]
